@@ -147,8 +147,10 @@ Fixpoint st_drain_ids (ms : mstore) (ids : list N) (c : ctx) : mstore * list tok
       | None => (ms2, l, cx_fail c2)          (* expect("Tried to access same index twice") *)
       end
   end.
-Definition st_drain (ms : mstore) (c : ctx) : mstore * list tok * ctx :=
-  st_drain_ids ms (NS.elements (ms_mask ms)) c.
+(* [lim]: the iterator is dropped after that many items (the rest stays in the storage) *)
+Definition st_drain (ms : mstore) (lim : option nat) (c : ctx) : mstore * list tok * ctx :=
+  let ids := NS.elements (ms_mask ms) in
+  st_drain_ids ms (match lim with Some k => firstn k ids | None => ids end) c.
 
 (* entry API *)
 Inductive entry_op :=
